@@ -25,7 +25,24 @@ def run(ctx):
     cfg_st = [c for c in stores if "pgcat::config::CONFIG" in static_of(c.body, c.args[0])]
     pools_st = [c for c in stores if "pgcat::pool::POOLS" in static_of(c.body, c.args[0])]
     ctx.evaluations += len(stores)
-    r1.check(len(cfg_st) >= 1 and all(c.body.name == PARSE for c in cfg_st), "CONFIG-writers", "CONFIG is stored only in config::parse (%d site)" % len(cfg_st), "CONFIG is written in %s" % sorted({c.body.name for c in cfg_st}))
+    r1.check(len(cfg_st) >= 1 and all(c.body.name in (PARSE, RELOAD) for c in cfg_st) and any(c.body.name == PARSE for c in cfg_st), "CONFIG-writers", "CONFIG is stored only in config::parse (and put back by reload_config when the rebuild failed): %d site(s)" % len(cfg_st), "CONFIG is written in %s" % sorted({c.body.name for c in cfg_st}))
+    # a store in reload_config is the restore of the configuration the running pools were built from (D44): the value loaded before parse(), on the Err edge of from_config only
+    rl1 = F.body(RELOAD)
+    for c in cfg_st:
+        if c.body is not rl1:
+            continue
+        rsw1 = switches(rl1)
+        errF, _okF, _ = discr_edges(rl1, r"core::result::Result<\(\), pgcat::errors::Error>", "Err", origin_pred=lambda o: o.kind == "call" and o.call.name == "pgcat::pool::ConnectionPool::from_config", switches_cache=rsw1)
+        brkF, _c, _ = discr_edges(rl1, r"ControlFlow<", "Break", origin_pred=lambda o: o.kind == "call" and o.call.name == "pgcat::pool::ConnectionPool::from_config", switches_cache=rsw1)
+        errF = set(errF) | set(brkF)
+        w = rl1.uncrossed_path([0], [c.block], edges=errF)
+        pc1 = rl1.calls("pgcat::config::parse")
+        gc1 = [k for k in rl1.calls("pgcat::config::get_config") if pc1 and rl1.dominates(k.block, pc1[0].block)]
+        vis = set()
+        origins(rl1, c.args[1], visited=vis, taint=True)
+        from_old = bool(gc1) and any(o.kind == "call" and o.call.block == gc1[0].block for o in origins(rl1, c.args[1], taint=True))
+        r1.check(bool(errF) and w is None and from_old, "restore-only-after-failed-rebuild", "reload_config stores CONFIG only after from_config failed, and stores the configuration it loaded before parsing",
+                 "reload_config writes CONFIG %s" % ("on a path where from_config did not fail" if w is not None or not errF else "with a value that is not the configuration loaded before parse()"), c.where())
     p = ctx.body(PARSE, r1)
     if p and cfg_st:
         psw = switches(p)
@@ -106,6 +123,20 @@ def run(ctx):
             # the Err arm returns an error without touching pools
             reach = rl.reach([d for _, d in errE])
             r2.check(not [c for c in fcc if c.block in reach], "reload:err-arm-inert", "the parse-error arm never reaches from_config", "the parse-error arm reaches from_config")
+    if rl and rl.calls("pgcat::pool::ConnectionPool::from_config"):
+        # a rebuild that failed leaves POOLS as they were; CONFIG has to be put back too, or the next reload compares the file with itself,
+        # finds no change and never builds the pools of a valid file (D44)
+        rsw2 = switches(rl)
+        fpred = lambda o: o.kind == "call" and o.call.name == "pgcat::pool::ConnectionPool::from_config"
+        errF, _o, _ = discr_edges(rl, r"core::result::Result<\(\), pgcat::errors::Error>", "Err", origin_pred=fpred, switches_cache=rsw2)
+        brkF, _c, _ = discr_edges(rl, r"ControlFlow<", "Break", origin_pred=fpred, switches_cache=rsw2)
+        fails = [d for _, d in set(errF) | set(brkF)]
+        cfg_stores = [c.block for c in cfg_st if c.body is rl]
+        rets2 = [bb for bb, blk in enumerate(rl.blocks) if blk["term"]["k"] == "return"]
+        w = rl.uncrossed_path(fails, rets2, blocks=cfg_stores) if fails else [0]
+        r2.check(bool(fails) and w is None, "reload:failed-rebuild=>config-restored", "when from_config fails, reload_config puts the previous configuration back before it returns",
+                 "when from_config fails (a server of a new pool is down while validate_config / min_pool_size make the build connect), reload_config returns with CONFIG = the new file and POOLS = the old pools: "
+                 "every later reload of that file sees `no change` and the valid configuration never takes effect", "", w and rl.describe_path(w))
     if rl:
         # whether a file takes effect is decided by reading it: reload_config parses on every call, no return comes earlier
         pc = rl.calls("pgcat::config::parse")
